@@ -11,6 +11,8 @@ import (
 	"math/rand"
 	"os"
 	"runtime"
+	"strconv"
+	"unsafe"
 	"strings"
 	"sync"
 	"time"
@@ -20,6 +22,7 @@ import (
 	"go.brendoncarroll.net/p2p/p/mbapp"
 	"go.brendoncarroll.net/p2p/p/p2pmux"
 	"go.brendoncarroll.net/p2p/s/fragswarm"
+	"go.brendoncarroll.net/p2p/s/mapswarm"
 	"go.brendoncarroll.net/p2p/s/memswarm"
 	"go.brendoncarroll.net/p2p/s/multiswarm"
 	"go.brendoncarroll.net/p2p/s/p2pkeswarm"
@@ -188,6 +191,30 @@ var templates = []template{
 			return a, a
 		})
 	}},
+	{"map(mem)", true, func(n, seed int) ([]node, error) {
+		// address-mapped swarm: above addresses are names "node-<k>", below addresses are memswarm's numbers
+		r := memswarm.NewRealm(memswarm.WithQueueLen(256), memswarm.WithMTU(3000))
+		var ret []node
+		for i := 0; i < n; i++ {
+			m := mapswarm.New[mappedAddr, memswarm.Addr](r.NewSwarm(),
+				func(a mappedAddr) memswarm.Addr { return memswarm.Addr{N: a.K - 1000} },
+				func(b memswarm.Addr) mappedAddr { return mappedAddr{K: b.N + 1000} },
+				parseMappedAddr)
+			t := erase[mappedAddr](m)
+			ret = append(ret, node{tell: t, close: func() { t.Close() }})
+		}
+		return ret, nil
+	}},
+	{"mbapp(mem200)", true, func(n, seed int) ([]node, error) {
+		r := memswarm.NewRealm(memswarm.WithQueueLen(256), memswarm.WithMTU(200))
+		var ret []node
+		for i := 0; i < n; i++ {
+			mb := mbapp.New[memswarm.Addr, struct{}](p2p.ComposeSecureSwarm[memswarm.Addr, struct{}](r.NewSwarm(), noSecure[memswarm.Addr]{}), 6000)
+			a := eraseAsk[memswarm.Addr](mb)
+			ret = append(ret, node{tell: a, ask: a, close: func() { mb.Close() }})
+		}
+		return ret, nil
+	}},
 	{"udp", false, func(n, seed int) ([]node, error) {
 		var ret []node
 		for i := 0; i < n; i++ {
@@ -244,6 +271,29 @@ var templates = []template{
 	}},
 }
 
+// mappedAddr is the upper address type of the mapswarm template
+type mappedAddr struct{ K int }
+
+func (a mappedAddr) MarshalText() ([]byte, error) { return []byte(fmt.Sprintf("node-%d", a.K)), nil }
+func (a mappedAddr) String() string               { return fmt.Sprintf("node-%d", a.K) }
+func parseMappedAddr(x []byte) (mappedAddr, error) {
+	var a mappedAddr
+	if !strings.HasPrefix(string(x), "node-") {
+		return a, errors.New("not a mapped address")
+	}
+	k, err := strconv.Atoi(strings.TrimPrefix(string(x), "node-"))
+	a.K = k
+	return a, err
+}
+
+// noSecure makes a plain swarm look like a secure one whose keys are empty (mbapp wants a SecureSwarm)
+type noSecure[A p2p.Addr] struct{}
+
+func (noSecure[A]) PublicKey() struct{} { return struct{}{} }
+func (noSecure[A]) LookupPublicKey(ctx context.Context, a A) (struct{}, error) {
+	return struct{}{}, nil
+}
+
 func sum(b []byte) uint64 { h := fnv.New64a(); h.Write(b); return h.Sum64() }
 
 type delivery struct {
@@ -282,7 +332,9 @@ func swarmOracle(r *rand.Rand, n int, tier string, infile string) (cases int, fa
 			fails = append(fails, fmt.Sprintf(f, a...))
 		}
 	}
-	for round := 0; cases < n; round++ {
+	start := oracleOffset
+	var ran []string
+	for round := start; round < start+n; round++ {
 		tpl := templates[round%len(templates)]
 		if only := os.Getenv("SWARM_TPL"); only != "" && tpl.name != only {
 			continue
@@ -291,11 +343,18 @@ func swarmOracle(r *rand.Rand, n int, tier string, infile string) (cases int, fa
 			continue
 		}
 		cases += swarmCase(r, tpl, round, bad)
+		ran = append(ran, tpl.name)
 	}
-	udpCtxCase(bad)
-	cases++
-	transformCase(bad)
-	cases++
+	fmt.Println("swarm oracle templates run in this slice:", strings.Join(ran, " "))
+	if start == 0 {
+		dupHoldCase("frag", bad)
+		dupHoldCase("mbapp", bad)
+		cases += 2
+		udpCtxCase(bad)
+		cases++
+		transformCase(bad)
+		cases++
+	}
 	for _, tpl := range templates {
 		if tier == "quick" && !tpl.reliable && closeDuringDone[tpl.name] {
 			continue
@@ -308,6 +367,117 @@ func swarmOracle(r *rand.Rand, n int, tier string, infile string) (cases int, fa
 }
 
 var closeDuringDone = map[string]bool{}
+
+// dupSwarm is a transport that duplicates: everything told through it arrives at once and again after a delay.
+type dupSwarm struct {
+	dyn
+	delay time.Duration
+}
+
+func (d dupSwarm) Tell(ctx context.Context, dst p2p.Addr, v p2p.IOVec) error {
+	var cp []byte
+	for _, seg := range v {
+		cp = append(cp, seg...)
+	}
+	err := d.dyn.Tell(ctx, dst, v)
+	go func() {
+		time.Sleep(d.delay)
+		d.dyn.Tell(context.Background(), dst, p2p.IOVec{cp})
+	}()
+	return err
+}
+
+// dupHoldCase: a reassembling layer (fragswarm, mbapp) over a network that duplicates every datagram a little later,
+// three receivers whose callbacks hold their message for a while. While a callback runs, the memory of the message it
+// was given must not be handed to another callback (C14), its contents must stay what they were on entry (C14), and
+// what it was given must be a payload that was told (C01/C10). Callbacks do not modify their messages here.
+func dupHoldCase(kind string, bad func(string, ...any)) {
+	r := memswarm.NewRealm(memswarm.WithQueueLen(256), memswarm.WithMTU(120))
+	var nodes []dyn
+	for i := 0; i < 2; i++ {
+		base := dupSwarm{erase[memswarm.Addr](r.NewSwarm()), 30 * time.Millisecond}
+		switch kind {
+		case "frag":
+			nodes = append(nodes, fragswarm.New[p2p.Addr](base, 5000))
+		default:
+			mb := mbapp.New[p2p.Addr, struct{}](p2p.ComposeSecureSwarm[p2p.Addr, struct{}](base, noSecure[p2p.Addr]{}), 5000)
+			nodes = append(nodes, erase[p2p.Addr](mb))
+		}
+	}
+	time.Sleep(20 * time.Millisecond) // mbapp's clean-up loop makes its first pass right after construction
+	var mu sync.Mutex
+	active := map[uintptr]int{}
+	told := map[string]bool{}
+	seen := 0
+	stop := make(chan struct{})
+	var wg sync.WaitGroup
+	for g := 0; g < 3; g++ {
+		wg.Add(1)
+		go func() {
+			defer wg.Done()
+			for {
+				select {
+				case <-stop:
+					return
+				default:
+				}
+				ctx, cf := context.WithTimeout(context.Background(), 100*time.Millisecond)
+				nodes[1].Receive(ctx, func(m p2p.Message[p2p.Addr]) {
+					if len(m.Payload) == 0 {
+						return
+					}
+					ptr := uintptr(unsafe.Pointer(&m.Payload[0]))
+					h0 := sum(m.Payload)
+					mu.Lock()
+					seen++
+					if !told[string(m.Payload)] {
+						bad("C01 dup(%s): a receiver was given %d bytes that were never told", kind, len(m.Payload))
+					}
+					if active[ptr] > 0 {
+						bad("C14 dup(%s): the memory of a message was handed to a second callback while the callback that owns it was still running", kind)
+					}
+					active[ptr]++
+					mu.Unlock()
+					time.Sleep(70 * time.Millisecond)
+					if sum(m.Payload) != h0 {
+						bad("C14 dup(%s): the payload changed while the callback that owns it was running", kind)
+					}
+					mu.Lock()
+					active[ptr]--
+					mu.Unlock()
+				})
+				cf()
+			}
+		}()
+	}
+	addr := nodes[1].LocalAddrs()[0]
+	for k, size := range []int{300, 520, 97, 250} {
+		p := make([]byte, size)
+		for i := range p {
+			p[i] = byte(k*31 + i*7 + 1)
+		}
+		mu.Lock()
+		told[string(p)] = true
+		mu.Unlock()
+		ctx, cf := context.WithTimeout(context.Background(), time.Second)
+		if err := nodes[0].Tell(ctx, addr, p2p.IOVec{p}); err != nil {
+			bad("C01 dup(%s): Tell of %d bytes failed: %v", kind, size, err)
+		}
+		cf()
+		time.Sleep(15 * time.Millisecond)
+	}
+	time.Sleep(400 * time.Millisecond)
+	close(stop)
+	wg.Wait()
+	mu.Lock()
+	if seen < 4 {
+		bad("C01 dup(%s): %d of 4 messages arrived over a loss-free (duplicating) network", kind, seen)
+	}
+	mu.Unlock()
+	for _, n := range nodes {
+		n.Close()
+	}
+}
 
 // closeDuringCallbackCase: Close is called while one receiver's callback is still running. The OTHER receivers that
 // were blocked must return an error promptly all the same (C12 does not let them wait for somebody else's callback,
